@@ -10,7 +10,9 @@ package seqio
 // lines, incl. the exact multiples 70, 140, 210, 280), residues cycling through the printable
 // bytes 0x21..0x7e without '>' from three starting offsets, 6 descriptions (empty, one word,
 // words with blanks, a tab, a trailing blank, a '>' inside), streams of 1..5 records of mixed
-// lengths, the text read as written (LF) and with every LF turned into CRLF.  GenBank half: a
+// lengths, two-record streams whose first record has 3950..4250 residues (the scanner's
+// 4096-byte read boundary falls at every offset around the record break), the text read as
+// written (LF) and with every LF turned into CRLF.  GenBank half: a
 // 130-residue record parsed from text, written as FASTA whole and after gts.Slice for every
 // window [a,b) with a in {0,1,59,60,61} and every b > a (quick: b step 1; the description must be
 // "<version>:<a+1>-<b> <definition>", "<version> <definition>" for the unsliced record).
@@ -196,6 +198,11 @@ func TestVerifBoundedFasta(t *testing.T) {
 		for _, off := range []int{0, 31, 62} {
 			check([]vfRec{{descs[(n+off)%len(descs)], vfResidues(n, off)}})
 		}
+	}
+	// the scanner reads its input in 4096-byte blocks: lengths that move the end of the first
+	// record, and the start of the second, across a block boundary
+	for n := 3950; n <= 4250; n++ {
+		check([]vfRec{{"first", vfResidues(n, 7)}, {"second record", vfResidues(75, 3)}})
 	}
 	for _, d := range descs {
 		for _, n := range []int{0, 1, 69, 70, 71, 140} {
